@@ -7,6 +7,13 @@ TRUST = ("trusted base: go/types + go/ssa (x/tools v0.50.0), goyacc v0.29.0's LA
          "interface calls that leave the module (Entry, plugins) are opaque")
 
 CHECKS = {
+    "C09": dict(
+        cat="other",
+        text=("Exhaustive comparison of the tables the accepted statement language is made of with RFC 6020: every cell of the substatement table for every RFC parent and child keyword (presence, min, max), the keyword table, the statement-to-argument-class dispatch and the closed word sets of status/ordered-by/deviate/yang-version, the section sets and rank logic of checkModule, strict revision ordering, the three tests of checkCardinality and its skip set, that stmt() checks each node; plus two whole-program rules: no argument parser (or anything it calls) uses a stdlib recogniser accepting a strict superset of the ABNF, and no map update can reach the shared table. Tables are finite, so the comparison covers every (parent, child, multiplicity) triple, which no sampled test does."),
+        ref="DESIGN.md §4 C09",
+        technique="constant evaluation of table literals and switch case sets from the type-checked AST, compared with transcribed RFC 6020 tables; SSA alias-taint query for table writers; call-closure API-language rule",
+        note="Does not decide semantic rules outside the tables/ABNF, nor the uri/pattern/range sub-languages. " + TRUST,
+    ),
     "C04": dict(
         cat="other",
         text=("Decides the finite table/set agreements that the accepted language rests on, exhaustively over each table: the XPath 3.7 disambiguation set, operator and node-type name sets, the XML-Names and RFC 6020 identifier character classes (interval-set evaluation of the predicates), the three token maps and their inverses, per-production arity constants, that every production consuming an unsupported token reports it, that the parse-error latch is monotone and CreateProgram honours it, that every ERR exit records a lexer error, that the invalid-UTF-8 marker cannot enter a token, empty-input rejection, and conflict-free regenerable grammars. It does not decide language equivalence as a whole."),
@@ -76,7 +83,7 @@ def main():
 
 
 NA = {}
-SOURCE_COMMITS = ["e91d74a fix: reject invalid UTF-8 inside literals and QName local parts", "ad0dbf5 fix: CreateProgram no longer panics when the error position underflows"]
+SOURCE_COMMITS = ["e91d74a fix: reject invalid UTF-8 inside literals and QName local parts", "ad0dbf5 fix: CreateProgram no longer panics when the error position underflows", "f5b2578 fix: a submodule may have at most one organization statement", "7be1c78 fix: spell the yin-element keyword correctly", "9e6f860 fix: boolean arguments accept only true and false", "779e276 fix: integer arguments are decimal only", "b95096a fix: identifiers are ASCII as the YANG ABNF requires", "2221591 fix: NewFakeNodeByType no longer writes into the shared cardinality table"]
 
 if __name__ == "__main__":
     main()
